@@ -285,6 +285,17 @@ def r2_sqlite(ctx: Context) -> None:
                 ce = it.context_expr
                 if isinstance(ce, ast.Call) and (dotted(ce.func) or "").split(".")[-1] == "closing" and ce.args and any(ce.args[0] is o or any(y is o for y in ast.walk(ce.args[0])) for o in openers):
                     managed.extend(o for o in openers if ce.args[0] is o or any(y is o for y in ast.walk(ce.args[0])))
+                elif isinstance(ce, ast.Call) and (dotted(ce.func) or "").split(".")[-1] == "closing" and ce.args and isinstance(ce.args[0], ast.Name):
+                    # `connection = <open>` immediately followed by `with closing(connection):` - nothing runs in between that could leave it open
+                    blk = getattr(w, "_parent", None)
+                    body = getattr(blk, "body", []) if blk is not None else []
+                    if any(x is w for x in body):
+                        k_ = next(i for i, x in enumerate(body) if x is w)
+                        prev = body[k_ - 1] if k_ > 0 else None
+                        if isinstance(prev, (ast.Assign, ast.AnnAssign)) and prev.value is not None and any(prev.value is o for o in openers) \
+                                and isinstance(prev.targets[0] if isinstance(prev, ast.Assign) else prev.target, ast.Name) \
+                                and (prev.targets[0] if isinstance(prev, ast.Assign) else prev.target).id == ce.args[0].id:
+                            managed.extend(o for o in openers if prev.value is o)
         if openers and len(managed) == len(openers):
             ctx.ok("R2.close", f"sqlite3.{what}:close-on-every-exit", f"the connection of {what} is managed by contextlib.closing")
             continue
